@@ -451,6 +451,10 @@ def run_inner(case, ctx):
 def self_check_frame(out, tag, got, want_rows, flags, exp_nf, desc, o):
     import pandas as pd
     cols = list(got.columns)
+    if len(set(cols)) != len(cols):
+        out.violate('detected-frame', 'duplicate-columns',
+                    '%s: %r' % (tag, cols))
+        return
     if 'n_failures' not in cols:
         out.violate('detected-frame', 'no-n_failures', '%s: %r' % (tag, cols))
         return
